@@ -87,7 +87,7 @@ def run(chk):
             chk.leanchecker(["MambaVerif.Props.C07"])
     if not ok:
         return
-    scope_common.run_scope(chk, ["assign"], "Mutability", 60 if thorough else 14, 6 if thorough else 4)
+    scope_common.run_scope(chk, ["assign"], "Mutability", 60 if thorough else 30, 6 if thorough else 4)
     cases = matrix(thorough)
     res = sweep.transpile(chk, [t for _, t, _ in cases], annotate_both=False)
     stats = {"accept_ok": 0, "reject_ok": 0, "reject_for_other_reason": 0}
